@@ -1,40 +1,44 @@
 // rtprobe drives middleware.RetryMiddleware with scripted RoundTrippers.
 //
 // stdin: one case per line:  <id> <n> <delay_us> <script>
-//   script = comma separated outcomes, the i-th being what call i returns:
-//     e        -> (nil, err_i)           ec / ed / et: err_i is a *url.Error wrapping context.Canceled /
-//                                         context.DeadlineExceeded / a net.Error whose Timeout() is true
-//     E<code>  -> (resp_i with StatusCode code, err_i)
-//     <code>   -> (resp_i with StatusCode code, nil)      <code>r<secs>: the response carries Retry-After: <secs>
-//   several scripts separated by '|' = several requests, one after the other, through ONE middleware
-//   instance (the observation fields of the requests are then separated by " ; ")
-//   calls beyond the script return (nil, err) with identity -1 ("e").
-//   optional fifth field = request/transport profile, '+'-separated (the property quantifies over none of it, so the
-//   expected observation is the same for every profile):
-//     GET|HEAD|POST|PUT|PATCH|DELETE|OPTIONS  request method (default GET)      idem   Idempotency-Key header set
-//     body      the request carries a body with GetBody                        ctxv   context with a value and a cancel func
-//     lat<us>   every call of the transport takes <us> microseconds             outer<k> RetryMiddleware(k, d) stacked outside
-//     inner<k>  RetryMiddleware(k, d) stacked inside (between the instance under test and the transport)
+//
+//	script = comma separated outcomes, the i-th being what call i returns:
+//	  e        -> (nil, err_i)           ec / ed / et: err_i is a *url.Error wrapping context.Canceled /
+//	                                      context.DeadlineExceeded / a net.Error whose Timeout() is true
+//	  E<code>  -> (resp_i with StatusCode code, err_i)
+//	  <code>   -> (resp_i with StatusCode code, nil)      <code>r<secs>: the response carries Retry-After: <secs>
+//	several scripts separated by '|' = several requests, one after the other, through ONE middleware
+//	instance (the observation fields of the requests are then separated by " ; ")
+//	calls beyond the script return (nil, err) with identity -1 ("e").
+//	optional fifth field = request/transport profile, '+'-separated (the property quantifies over none of it, so the
+//	expected observation is the same for every profile):
+//	  GET|HEAD|POST|PUT|PATCH|DELETE|OPTIONS  request method (default GET)      idem   Idempotency-Key header set
+//	  body      the request carries a body with GetBody                        ctxv   context with a value and a cancel func
+//	  lat<us>   every call of the transport takes <us> microseconds             outer<k> RetryMiddleware(k, d) stacked outside
+//	  inner<k>  RetryMiddleware(k, d) stacked inside (between the instance under test and the transport)
+//
 // stdout: <id> <calls> <resp identity or -> <err identity or -> <sleeps> <first_gap_ok>
-//   identity of a response/error = index of the call that produced it.
-//   sleeps = number of calls i>0 that started at least delay after call i-1 returned
-//   first_gap_ok = 1 if call 0 started less than delay after the start
+//
+//	identity of a response/error = index of the call that produced it.
+//	sleeps = number of calls i>0 that started at least delay after call i-1 returned
+//	first_gap_ok = 1 if call 0 started less than delay after the start
 package main
 
 import (
 	"bufio"
 	"context"
 	"fmt"
-	"net/url"
 	"io"
 	"log"
 	"net/http"
+	"net/url"
 	"os"
 	"strconv"
 	"strings"
 	"sync"
 	"time"
 
+	"github.com/lopolopen/shoot"
 	"github.com/lopolopen/shoot/middleware"
 )
 
@@ -43,10 +47,10 @@ type scriptedErr struct{ idx int }
 func (e *scriptedErr) Error() string { return fmt.Sprintf("scripted error %d", e.idx) }
 
 type outcome struct {
-	hasResp bool
-	code    int
-	hasErr  bool
-	errKind byte   // 0 plain, 'c' canceled, 'd' deadline, 't' timeout net.Error
+	hasResp    bool
+	code       int
+	hasErr     bool
+	errKind    byte // 0 plain, 'c' canceled, 'd' deadline, 't' timeout net.Error
 	retryAfter string
 }
 
@@ -169,6 +173,25 @@ func runCase(line string) string {
 	if prof.outer >= 0 {
 		rt = middleware.RetryMiddleware(prof.outer, d)(rt)
 	}
+	if prof.logOut {
+		rt = middleware.LoggingMiddleware(rt)
+	}
+	if prof.viaBuild {
+		// the same stack, but assembled by the code under test: Use(...) options applied to a RestConf and
+		// RestConf.BuildMiddleware() over http.DefaultTransport (replaced in main by a dispatcher to the scripted wire)
+		var opts []shoot.Option[shoot.RestConf, *shoot.RestConf]
+		if prof.outer >= 0 {
+			opts = append(opts, shoot.Use(middleware.RetryMiddleware(prof.outer, d)))
+		}
+		opts = append(opts, shoot.Use(middleware.RetryMiddleware(n, d)))
+		if prof.inner >= 0 {
+			opts = append(opts, shoot.Use(middleware.RetryMiddleware(prof.inner, d)))
+		}
+		if prof.logOut {
+			opts = append(opts, shoot.EnableLogging(true))
+		}
+		rt = shoot.NewRestConf("", 0, false, nil).With(opts...).BuildMiddleware()
+	}
 	var parts []string
 	for _, one := range scripts {
 		s := &scripted{script: parseScript(one), resps: map[*http.Response]int{}, errs: map[error]int{}, lat: prof.lat}
@@ -179,15 +202,18 @@ func runCase(line string) string {
 }
 
 type profile struct {
-	method         string
-	idem, body     bool
-	ctxv           bool
-	lat            time.Duration
-	outer, inner   int  // RetryMiddleware(k, d) stacked outside / inside the instance under test; -1 = none
-	logIn          bool // LoggingMiddleware between the instance under test and what is below it
+	method       string
+	idem, body   bool
+	ctxv         bool
+	lat          time.Duration
+	outer, inner int  // RetryMiddleware(k, d) stacked outside / inside the instance under test; -1 = none
+	logOut       bool // LoggingMiddleware outside everything (RestConf: EnableLogging)
+	viaBuild     bool // assemble the stack through shoot.Use / RestConf.BuildMiddleware
+	logIn        bool // LoggingMiddleware between the instance under test and what is below it
 }
 
 type ctxKey struct{}
+type wireKey struct{}
 
 func parseProfile(s string) profile {
 	p := profile{method: "GET", outer: -1, inner: -1}
@@ -212,6 +238,10 @@ func parseProfile(s string) profile {
 			}
 		case t == "login":
 			p.logIn = true
+		case t == "logout":
+			p.logOut = true
+		case t == "viabuild":
+			p.viaBuild = true
 		case strings.HasPrefix(t, "lat"):
 			us, err := strconv.Atoi(t[3:])
 			if err != nil {
@@ -238,6 +268,9 @@ func observe(rt http.RoundTripper, s *scripted, d time.Duration, prof profile) s
 		ctx, cancel := context.WithCancel(context.WithValue(context.Background(), ctxKey{}, "v"))
 		defer cancel()
 		req = req.WithContext(ctx)
+	}
+	if prof.viaBuild {
+		req = req.WithContext(context.WithValue(req.Context(), wireKey{}, s))
 	}
 	start := time.Now()
 	resp, err := rt.RoundTrip(req)
@@ -271,6 +304,13 @@ func observe(rt http.RoundTripper, s *scripted, d time.Duration, prof profile) s
 
 func main() {
 	log.SetOutput(io.Discard)
+	http.DefaultTransport = middleware.RoundTripper(func(r *http.Request) (*http.Response, error) {
+		s, ok := r.Context().Value(wireKey{}).(*scripted)
+		if !ok {
+			return nil, fmt.Errorf("rtprobe: request without a scripted wire")
+		}
+		return s.RoundTrip(r)
+	})
 	par := 64
 	if len(os.Args) > 1 {
 		par, _ = strconv.Atoi(os.Args[1])
